@@ -19,7 +19,7 @@ REQUIRED = {t: ["oracle:C12.content-independent-of-dontcare", "oracle:C12.reenco
 
 
 def plan(tier, seed):
-    return plan_codec(tier, seed, ["C12"], quick_n=250, scr_k=5 if tier == "quick" else 25,
+    return plan_codec(tier, seed, ["C12"], quick_n=500, scr_k=5 if tier == "quick" else 25,
                       thorough_budget=60,
                       extra=[{"kind": "container-scramble", "n": 60 if tier == "quick" else 1500},
                              {"kind": "container-layout", "n": 300 if tier == "quick" else 20000}])
